@@ -244,9 +244,9 @@ fn probe_case(rc: &RCfg, size: u16, tos: u8, initseq: u16, seq: u16, tid: u16, s
 }
 
 // ------------------------------------------------------------------ independent encoders
-fn be16(v: u16) -> [u8; 2] { v.to_be_bytes() }
-fn put16(b: &mut [u8], o: usize, v: u16) { b[o] = (v >> 8) as u8; b[o + 1] = v as u8; }
-fn inet_sum(parts: &[&[u8]]) -> u16 {
+pub(crate) fn be16(v: u16) -> [u8; 2] { v.to_be_bytes() }
+pub(crate) fn put16(b: &mut [u8], o: usize, v: u16) { b[o] = (v >> 8) as u8; b[o + 1] = v as u8; }
+pub(crate) fn inet_sum(parts: &[&[u8]]) -> u16 {
     let mut acc: u64 = 0;
     for d in parts {
         for c in d.chunks(2) {
@@ -256,7 +256,7 @@ fn inet_sum(parts: &[&[u8]]) -> u16 {
     while acc > 0xFFFF { acc = (acc & 0xFFFF) + (acc >> 16); }
     !(acc as u16)
 }
-fn ip4_hdr(tos: u8, total_len: u16, id: u16, ttl: u8, proto: u8, src: &[u8], dst: &[u8], opts: &[u8]) -> Vec<u8> {
+pub(crate) fn ip4_hdr(tos: u8, total_len: u16, id: u16, ttl: u8, proto: u8, src: &[u8], dst: &[u8], opts: &[u8]) -> Vec<u8> {
     let mut v = vec![0u8; 20];
     v[0] = 0x40 | (5 + opts.len() / 4) as u8;
     v[1] = tos;
@@ -272,7 +272,7 @@ fn ip4_hdr(tos: u8, total_len: u16, id: u16, ttl: u8, proto: u8, src: &[u8], dst
     put16(&mut v, 10, c);
     v
 }
-fn ip6_hdr(tc: u8, flow: u32, plen: u16, nh: u8, hop: u8, src: &[u8], dst: &[u8]) -> Vec<u8> {
+pub(crate) fn ip6_hdr(tc: u8, flow: u32, plen: u16, nh: u8, hop: u8, src: &[u8], dst: &[u8]) -> Vec<u8> {
     let mut v = vec![0u8; 8];
     v[0] = 0x60 | (tc >> 4);
     v[1] = (tc << 4) | ((flow >> 16) & 0xf) as u8;
@@ -285,7 +285,7 @@ fn ip6_hdr(tc: u8, flow: u32, plen: u16, nh: u8, hop: u8, src: &[u8], dst: &[u8]
     v.extend_from_slice(dst);
     v
 }
-fn pseudo(src: &[u8], dst: &[u8], proto: u8, len: usize) -> Vec<u8> {
+pub(crate) fn pseudo(src: &[u8], dst: &[u8], proto: u8, len: usize) -> Vec<u8> {
     let mut v = src.to_vec();
     v.extend_from_slice(dst);
     if src.len() == 4 {
@@ -298,7 +298,7 @@ fn pseudo(src: &[u8], dst: &[u8], proto: u8, len: usize) -> Vec<u8> {
     v
 }
 /// ICMP / ICMPv6 echo (request or reply)
-fn echo(ty: u8, id: u16, seq: u16, payload: &[u8], ps: Option<&[u8]>) -> Vec<u8> {
+pub(crate) fn echo(ty: u8, id: u16, seq: u16, payload: &[u8], ps: Option<&[u8]>) -> Vec<u8> {
     let mut v = vec![ty, 0, 0, 0];
     v.extend_from_slice(&be16(id));
     v.extend_from_slice(&be16(seq));
@@ -307,7 +307,7 @@ fn echo(ty: u8, id: u16, seq: u16, payload: &[u8], ps: Option<&[u8]>) -> Vec<u8>
     put16(&mut v, 2, c);
     v
 }
-fn udp(sp: u16, dp: u16, ck: Option<u16>, payload: &[u8], src: &[u8], dst: &[u8]) -> Vec<u8> {
+pub(crate) fn udp(sp: u16, dp: u16, ck: Option<u16>, payload: &[u8], src: &[u8], dst: &[u8]) -> Vec<u8> {
     let mut v = vec![];
     v.extend_from_slice(&be16(sp));
     v.extend_from_slice(&be16(dp));
@@ -318,7 +318,7 @@ fn udp(sp: u16, dp: u16, ck: Option<u16>, payload: &[u8], src: &[u8], dst: &[u8]
     put16(&mut v, 6, c);
     v
 }
-fn tcp_syn(sp: u16, dp: u16, isn: u32, opts_words: usize) -> Vec<u8> {
+pub(crate) fn tcp_syn(sp: u16, dp: u16, isn: u32, opts_words: usize) -> Vec<u8> {
     let mut v = vec![0u8; 20 + 4 * opts_words];
     put16(&mut v, 0, sp);
     put16(&mut v, 2, dp);
@@ -473,14 +473,14 @@ fn probe_dgram(c: &Cell, rc: &RCfg, id: &Ident, ttl: u8, tos: u8, size: usize, r
 
 // ------------------------------------------------------------------ the other end of the wire
 #[derive(Clone, Debug)]
-enum ExtForm { Absent, Rfc4884(Vec<u8>), Legacy(Vec<u8>) }
+pub(crate) enum ExtForm { Absent, Rfc4884(Vec<u8>), Legacy(Vec<u8>) }
 #[derive(Clone, Debug)]
-struct Peer { router: Vec<u8>, du_code: Option<u8>, n: usize, ttl2: u8, tos2: u8, ext: ExtForm, outer_opt_words: usize }
+pub(crate) struct Peer { pub router: Vec<u8>, pub du_code: Option<u8>, pub n: usize, pub ttl2: u8, pub tos2: u8, pub ext: ExtForm, pub outer_opt_words: usize }
 #[derive(Clone, Debug, Default)]
-struct Offs { icmp: usize, len_byte: usize, nested: usize, ext: Option<usize> }
+pub(crate) struct Offs { icmp: usize, len_byte: usize, nested: usize, ext: Option<usize> }
 
 /// ICMP Time Exceeded / Destination Unreachable quoting `dgram` (RFC 792 / 1812 / 4443 / 4884)
-fn quote(v6: bool, me: &[u8], p: &Peer, dgram: &[u8]) -> (Vec<u8>, Offs) {
+pub(crate) fn quote(v6: bool, me: &[u8], p: &Peer, dgram: &[u8]) -> (Vec<u8>, Offs) {
     let mut d = dgram.to_vec();
     if v6 {
         d[7] = p.ttl2;
@@ -531,7 +531,7 @@ fn quote(v6: bool, me: &[u8], p: &Peer, dgram: &[u8]) -> (Vec<u8>, Offs) {
         (v, offs)
     }
 }
-fn echo_reply(v6: bool, me: &[u8], target: &[u8], id: u16, seq: u16, payload: &[u8], outer_opt_words: usize) -> Vec<u8> {
+pub(crate) fn echo_reply(v6: bool, me: &[u8], target: &[u8], id: u16, seq: u16, payload: &[u8], outer_opt_words: usize) -> Vec<u8> {
     if v6 {
         echo(129, id, seq, payload, Some(&pseudo(target, me, 58, 8 + payload.len())))
     } else {
